@@ -29,7 +29,7 @@ def run(tier):
             {'label': 'items-only-pool5-cap4-L2', 'harness': HItem(pool=5, cap=4, max_list=2, patterns=('plain',)), 'monitors': mon},
             {'label': 'interleaved-pool4-cap3-L2', 'harness': HItem(pool=4, cap=3, max_list=2, patterns=('p-between', 'foreign'),
                                                                positions=('second',)), 'monitors': mon},
-            {'label': 'exotic-ids', 'harness': HItem(pool=gen.EXOTIC_IDS[:4], cap=3, max_list=2, patterns=('plain',), positions=('second',)),
+            {'label': 'exotic-ids', 'harness': HItem(pool=gen.EXOTIC_QUICK, cap=3, max_list=2, patterns=('plain',), positions=('second',)),
              'monitors': mon},
             {'label': 'pool4-cap3-L3', 'harness': HItem(pool=4, cap=3, max_list=3, patterns=('plain',), positions=('second',), packings=('one',)),
              'monitors': mon},
